@@ -220,12 +220,34 @@ let parse_event (line : string) : ev =
            | "fail" -> StFail | "chclose" -> StChClose | "ctxend" -> StCtxEnd | "shutdown" -> StShutdown
            | "stop" -> StStop | "adv" -> StAdvance | "open" -> StOpen | _ -> StRawEnd) in
        Stim (k, getn a "t", parse_md (get a "md"), dstr (get a "peer"))
+     | "route" ->
+       let via = get a "via" in
+       if String.length via >= 4 && String.sub via 0 4 = "key:" then
+         let k = String.sub via 4 (String.length via - 4) in
+         Route (getn a "r", true, (if k = "nil" then None else Some (dstr k)))
+       else Route (getn a "r", false, None)
+     | "readyobs" ->
+       let via = get a "via" in
+       let keyed, key = (if String.length via >= 4 && String.sub via 0 4 = "key:" then
+                           let k = String.sub via 4 (String.length via - 4) in (true, (if k = "nil" then None else Some (dstr k)))
+                         else (false, None)) in
+       let all = (let v = get a "all" in if v = "" then [] else List.map (fun x -> n_of_int (int_of_string x)) (split ',' v)) in
+       ReadyObs (keyed, key, get a "res" = "true", all)
+     | "waitcall" ->
+       let via = get a "via" in
+       let keyed, key = (if String.length via >= 4 && String.sub via 0 4 = "key:" then
+                           let k = String.sub via 4 (String.length via - 4) in (true, (if k = "nil" then None else Some (dstr k)))
+                         else (false, None)) in
+       WaitCall (getn a "n", keyed, key)
+     | "waitret" -> WaitRet (getn a "n", parse_res (get a "res"))
      | "PANIC" -> Panic
      | "skip" -> Skip
      | _ -> Other)
 
+let keys_cfg = ref false
 let cfg_of (toks : string list) : cfg =
   let a = assoc_of toks in
+  keys_cfg := (get a "keys" = "1");
   { c_rev = (get a "mode" = "rev"); c_cdis = (get a "cdis" = "1"); c_sdis = (get a "sdis" = "1");
     c_cleg = (get a "cleg" = "1"); c_sleg = (get a "sleg" = "1"); c_rawc = (get a "rawc" = "1"); c_raws = (get a "raws" = "1") }
 
@@ -259,7 +281,7 @@ let run_traces (path : string) =
            let c = !cfg in
            let fails =
              mon_wire c tr @ mon_C01 c tr @ mon_C02 c tr @ mon_C03 c tr @ mon_C04 c tr @ mon_C07 c tr @ mon_C08 tr @
-             mon_C10 c tr @ mon_C14 c tr @ mon_C16 c tr @ mon_C17 c tr @ mon_C18 tr @ mon_panic tr @ mon_tables c tr @ mon_ctable c tr @ mon_negotiate c tr @ mon_overrun c tr in
+             mon_C10 c tr @ mon_C14 c tr @ mon_C16 c tr @ mon_C17 c tr @ mon_C18 tr @ mon_panic tr @ mon_tables c tr @ mon_ctable c tr @ mon_negotiate c tr @ mon_overrun c tr @ mon_registry c !keys_cfg tr in
            let status = (match split ' ' rest with _ :: st :: _ -> st | _ -> "?") in
            Printf.printf "T %s %s %d %s\n" !name status !nev (String.concat " " (List.map string_of_fail fails))
          | _ -> ()
